@@ -529,7 +529,7 @@ def cases(ctx):
             else:
                 out.append(("sem", fcall("Select", N("zs"), lam("r", e))))
     ctx.notes.append("comprehension nests: depth<=2 bare and depth 1 under both operator-lambda wrappers, exhaustive: %d" % n2)
-    n3 = ctx.budget(1500, 40000)
+    n3 = ctx.budget(1500, 30000)
     for _ in range(n3):
         w = r.choice([0, 0, 1, 2])
         out.append(("sem", wrap(lambda outer, base: rand_comp(r, 3, outer, base), w)))
@@ -555,7 +555,7 @@ def cases(ctx):
     out += sem_dc_cases(r, ctx.budget(400, 6000))
     out += malformed_cases(r, ctx.budget(600, 9000))
     rg = SugarRandom(r)
-    for _ in range(ctx.budget(1500, 40000)):
+    for _ in range(ctx.budget(1500, 30000)):
         out.append(("random", rg.expr(r.randrange(2, 5))))
     return out
 
@@ -603,7 +603,8 @@ def oracle_sem(ctx, e, res):
             want = ref.norm(ref.cpython_eval(e, env))
         except Exception as ex:  # noqa   one-directional: only when the original evaluates
             ctx.count("semantic", "original raises")
-            SEM_CACHE.append((e, di, ("raise", type(ex).__name__)))
+            quirk = isinstance(ex, UnboundLocalError) or (isinstance(ex, NameError) and "free variable" in str(ex))
+            SEM_CACHE.append((e, di, ("raise", "PEP709" if quirk else type(ex).__name__)))
             continue
         SEM_CACHE.append((e, di, ("v", want)))
         n_eval += 1
@@ -766,11 +767,12 @@ def eval_crosscheck(ctx):
         ctx.evaluations += 1
         if orig.startswith("OK "):
             v = val_py(bridge.parse_sx(orig[3:]))
-            if want[0] == "raise" and want[1] == "UnboundLocalError":
+            if want[0] == "raise" and want[1] == "PEP709":
                 # CPython >= 3.12 inlines comprehensions (PEP 709): a name that is a comprehension target *and* is read
                 # from the enclosing/global scope inside the same lambda becomes an unbound local of the lambda in some
                 # nestings.  An artefact of that implementation, not of the language the property speaks about.
-                ctx.count("coq_eval", "CPython raises UnboundLocalError (PEP 709 inlining corner), Eval.v gives the global")
+                ctx.count("coq_eval", "CPython raises UnboundLocalError / NameError 'free variable' (PEP 709 inlining corner), "
+                                      "Eval.v gives the enclosing-scope value")
                 continue
             if want[0] == "raise" or not (ref.rec_leq(v, want[1]) and ref.rec_leq(want[1], v)):
                 ctx.fail("no-failing-input-found",
